@@ -115,7 +115,7 @@ PLAN = {
              "'the alias reported afterwards is the new one' needs a device model (not stated); wait_while_busy (polling under `async{}.timeout()`) is the arbitrary device",
     ),
     "C15": dict(
-        verus=["sdo", "mailbox"], kani=["mbx"], level="proof",
+        verus=["sdo", "mailbox", "init_addr"], kani=["mbx"], level="proof",
         claim="Coe::mailbox_write_read extracted WHOLE (Verus, device = arbitrary reply bytes of any length): the request bytes written to the write mailbox are exactly "
               "request.pack() with the mailbox's address and length, and the outcome is exactly triage(request, reply): emergency -> Emergency error with the code/register "
               "decoded right after the 8 header bytes, abort -> Aborted with the device's abort code and the reply's index/sub-index, foreign mailbox type or an index/sub-index "
